@@ -9,6 +9,7 @@ from irsym import term as T, solver as S
 from irsym.term import Term, Poly, PolyCtx
 
 KNOWN_FILE = os.path.join(VERIF, 'known_findings.txt')
+OUT = os.environ.get('VERIF_OUT', VERIF)      # evidence/ and replays/ are written below this directory (default: /verif)
 
 
 def load_known():
@@ -49,8 +50,8 @@ class Check:
         self.hashes = set()
         self.nqueries = 0
         self.known = [k for k in load_known() if k.get('property') == pid]
-        os.makedirs(os.path.join(VERIF, 'replays'), exist_ok=True)
-        os.makedirs(os.path.join(VERIF, 'evidence'), exist_ok=True)
+        os.makedirs(os.path.join(OUT, 'replays'), exist_ok=True)
+        os.makedirs(os.path.join(OUT, 'evidence'), exist_ok=True)
 
     # ------------------------------------------------------------ bookkeeping
     def note_solver(self, solver):
@@ -107,7 +108,7 @@ class Check:
     # ------------------------------------------------------------ findings
     def report(self, key, what, replay):
         """a reproduced violation.  key identifies the failing call site / input class."""
-        path = os.path.join(VERIF, 'replays', '%s-%s.json' % (self.pid, hashlib.sha1(key.encode()).hexdigest()[:10]))
+        path = os.path.join(OUT, 'replays', '%s-%s.json' % (self.pid, hashlib.sha1(key.encode()).hexdigest()[:10]))
         with open(path, 'w') as f:
             json.dump({'property': self.pid, 'key': key, 'what': what, 'replay': replay}, f, indent=1, default=str)
         for k in self.known:
@@ -148,7 +149,7 @@ class Check:
             cov['explanation'] = cov.get('explanation', 'see level_note in MANIFEST.json')
         ev = {'property_id': self.pid, 'tier': self.tier, 'seed': self.seed, 'level': self.level, 'coverage': cov,
               'assumptions': self.assumptions, 'wall_s': round(wall, 2), 'violations': len(self.violations)}
-        with open(os.path.join(VERIF, 'evidence', '%s.json' % self.pid), 'w') as f:
+        with open(os.path.join(OUT, 'evidence', '%s.json' % self.pid), 'w') as f:
             json.dump(ev, f, indent=1, default=str)
         q = cov['queries']
         print('%s %s: %d queries (unsat %d / sat %d / unknown %d), %d paths, %d IR instructions, %.1fs solver, %.1fs wall' % (
